@@ -601,6 +601,11 @@ func (s resolverSuite) sharedSequence(c rCase, enc []string) []Step {
 	}
 	var steps []Step
 	for k, cl := range calls {
+		if (k+len(cl.world))%3 == 0 {
+			// an abandoned resolution of the same request first (context cancelled at its n-th consultation): whatever
+			// it leaves in the process-wide caches must not change the answer that follows
+			_ = resolveBuiltCtx(newPCountCtx([]int{0, 1, 2, 3, 5, 8, 13, 21}[(k/3+len(c.Archs))%8]), built, cl.self, cl.world, cl.multi)
+		}
 		out := resolveBuilt(built, cl.self, cl.world, cl.multi)
 		archs, e := c.Archs, enc
 		if !cl.multi {
